@@ -2,6 +2,8 @@ SPECIFICATION Spec
 CONSTANTS
   MaxSet = 3
   Bases <- BasesNone
+  SendModes <- NoSends
+  PlainApis <- NoSends
   Ordered = TRUE
 INVARIANTS TypeOK NoLeak Partition Recovered
 VIEW View
